@@ -251,7 +251,9 @@ func (multi *MultiEpoch) handleGetBlock(ctx context.Context, conn *requestContex
 						txNode, err := epochHandler.GetTransactionByCid(ctx, tcid)
 						if err != nil {
 							klog.Errorf("failed to decode Transaction %s: %v", tcid, err)
-							return nil
+							// NOTE: the slot of this transaction would otherwise stay nil in
+							// allTransactionNodes and be dereferenced below.
+							return fmt.Errorf("failed to get Transaction %s: %w", tcid, err)
 						}
 						mu.Lock()
 						allTransactionNodes[entryIndex][txI] = txNode
